@@ -36,6 +36,8 @@ def _case(draw, worlds):
             'zero_to_none': draw(st.booleans()), 'inspect': draw(st.sampled_from([False, False, True])),
             # AMP as documented: the loss is scaled, the gradients are unscaled before step(), grad_scaler tells K-FAC the scale
             'loss_scale': draw(st.sampled_from([None, None, None, 128.0, 1024.0])),
+            # constant clip value / learning rate given as a 0-d tensor or a numpy scalar instead of a Python float
+            'hp_form': draw(st.sampled_from([None, None, None, 'tensor0d', 'numpy'])),
             'schedule': draw(st.lists(st.integers(0, 63), max_size=100))}
 
 
@@ -241,7 +243,7 @@ class C07(Prop):
         labels = {'W': W, 'multi_rank': W > 1, 'method': case['method'], 'prediv': case['prediv'],
                   'strategy': 'COMM' if case['k'] == W else 'MEM' if case['k'] == 1 else 'HYBRID',
                   'kl_kind': 'table' if isinstance(case['hp']['kl_clip'], dict) else str(case['hp']['kl_clip'] is None and 'None' or 'const'),
-                  'live_hp': any(isinstance(case['hp'][k], dict) and 'live' in case['hp'][k] for k in ('kl_clip', 'lr')),
+                  'hp_form': str(case.get('hp_form')), 'live_hp': any(isinstance(case['hp'][k], dict) and 'live' in case['hp'][k] for k in ('kl_clip', 'lr')),
                   'inspect': bool(case.get('inspect')), 'loss_scale': case.get('loss_scale') is not None}
         unclipped = copy.deepcopy(case)
         unclipped['hp']['kl_clip'] = 1e30
